@@ -1,33 +1,54 @@
 """Render abstract configurations (CORPUS records emitted by TLC) to real Rust items that use #[derive(Educe)].
 
-The renderer contains no oracle. It chooses among equivalent attribute spellings deterministically from the
-configuration index, so that the run-time corpora also exercise the spelling dimension (C14 proves the
-spellings equivalent at expansion level).
+The renderer contains no oracle. Every choice between equivalent spellings goes through `sp()`, whose
+alternatives come from the TLA+ table spec/EduceSpell.tla (printed by TLC, cached in work/spell.json).
+By default the spelling is picked deterministically from the configuration index, so the run-time corpora
+also exercise the spelling dimension; C14 overrides one *site* at a time to build spelling groups.
 """
 import hashlib
+import json
+import os
+
+ROOT = os.path.dirname(os.path.dirname(os.path.abspath(__file__)))
+NO_RANK = -999
+NO_DISC = -999
+
+_SPELL = None
+
+
+def load_spell():
+    global _SPELL
+    if _SPELL is not None:
+        return _SPELL
+    src = os.path.join(ROOT, 'spec', 'EduceSpell.tla')
+    cache = os.path.join(ROOT, 'work', 'spell.json')
+    try:
+        if os.path.getmtime(cache) >= os.path.getmtime(src):
+            _SPELL = json.load(open(cache))
+            return _SPELL
+    except OSError:
+        pass
+    import tlc
+    os.makedirs(os.path.join(ROOT, 'work', 'spell'), exist_ok=True)
+    res = tlc.run_mc('EduceSpell', 'EduceSpell.cfg', os.path.join(ROOT, 'work', 'spell'), workers=1, timeout=120, tags=('SPELL',), heap='1g')
+    if not res['tagged']['SPELL']:
+        raise tlc.ToolError('could not obtain the spelling table from EduceSpell.tla:\n' + res['text'][-2000:])
+    _SPELL = res['tagged']['SPELL'][0]
+    tmp = cache + '.%d' % os.getpid()
+    with open(tmp, 'w') as f:
+        json.dump(_SPELL, f)
+    os.replace(tmp, cache)
+    return _SPELL
+
+
+def hpick(n, *key):
+    h = hashlib.sha256(repr(key).encode()).digest()
+    return h[0] % n
 
 
 def pick(options, *key):
-    h = hashlib.sha256(repr(key).encode()).digest()
-    return options[h[0] % len(options)]
+    return options[hpick(len(options), *key)]
 
-
-def ignore_spelling(trait, key):
-    return pick(['%s(ignore)' % trait, '%s(ignore = true)' % trait, '%s(ignore(true))' % trait, '%s = false' % trait], 'ign', key)
-
-
-def method_spelling(path, key):
-    return pick(['method(%s)' % path, 'method = "%s"' % path, 'method = %s' % path, 'method("%s")' % path], 'meth', key)
-
-
-def rank_spelling(n, key):
-    if n < 0:
-        return pick(['rank = %d' % n, 'rank = "%d"' % n, 'rank(%d)' % n, 'rank("%d")' % n], 'rank', key)
-    return pick(['rank = %d' % n, 'rank = "%d"' % n, 'rank(%d)' % n, 'rank("%d")' % n], 'rank', key)
-
-
-NO_RANK = -999
-NO_DISC = -999
 
 NAME_POOLS = [
     None,                                                   # f1, f2, ...
@@ -40,208 +61,275 @@ NAME_POOLS = [
 class TypeRender:
     """Rust source for one configuration."""
 
-    def __init__(self, idx, cfg, prop):
+    FIELD_TYPES = {'A': 'TA', 'B': 'TB', 'P': 'P', 'ref': "&'static P", 'bool': 'bool', 'u64': 'u64', 'unit': '()', 'char': 'char',
+                   'str': "&'static str", 'nz': '::core::num::NonZeroU8', 'opt': 'Option<u8>', 'nested': 'probes::Inner'}
+    with_finger = True
+
+    def __init__(self, idx, cfg, prop, overrides=None, canonical=False, name=None):
         self.idx = idx
         self.cfg = cfg
         self.prop = prop
-        self.name = 'T%d' % idx
+        self.name = name or 'T%d' % idx
         self.opts = cfg['opts']
         self.traits = list(self.opts['traits'])
+        self.overrides = dict(overrides or {})
+        self.canonical = canonical
+        self.sites = []           # (site, class, n) visited by the last render
+        self.used_overrides = set()
         # naming dimension: mostly plain names, sometimes raw / template-internal / underscore names
-        self.pool = NAME_POOLS[pick([0, 0, 0, 1, 2, 3], idx, 'names')]
+        self.pool = None if canonical else NAME_POOLS[pick([0, 0, 0, 1, 2, 3], idx, 'names')]
+
+    # ------------------------------------------------------------ spelling
+    def sp(self, cls, site, T='', P='', V='', S=None):
+        opts = load_spell()[cls]
+        n = len(opts)
+        if site in self.overrides:
+            k = self.overrides[site] - 1
+            self.used_overrides.add(site)
+        elif self.canonical:
+            k = 0
+        else:
+            k = hpick(n, self.idx, site)
+        self.sites.append((site, cls, n))
+        if S is None:
+            S = V
+        return opts[k].replace('$T', T).replace('$P', P).replace('$V', str(V)).replace('$S', str(S))
+
+    def order(self, items, site):
+        if len(items) < 2:
+            return items
+        how = self.sp('order', site)
+        if how == 'reverse':
+            return list(reversed(items))
+        if how == 'rotate':
+            return items[1:] + items[:1]
+        return items
+
+    def attrs(self, metas, site):
+        """one #[educe(..)] list or one attribute per meta"""
+        metas = [m for m in metas if m]
+        if not metas:
+            return ''
+        if len(metas) > 1 and self.sp('split', site) == 'separate':
+            return ' '.join('#[educe(%s)]' % m for m in metas) + ' '
+        return '#[educe(%s)] ' % ', '.join(metas)
+
+    def meta(self, T, params, site):
+        params = [p for p in params if p]
+        if not params:
+            return T
+        return '%s(%s)' % (T, ', '.join(self.order(params, site + '/order')))
 
     def fname(self, v, i):
         if self.pool is None or i > len(self.pool):
             return 'f%d' % i
         return self.pool[i - 1]
 
-    # ------------------------------------------------------------ attributes
-    def type_attr(self):
-        parts = []
-        for t in self.traits:
-            parts.append(self.type_trait_meta(t))
-        key = (self.idx, 'tattr')
-        if len(parts) > 1 and pick([0, 1, 2], key) == 0:
-            # several #[educe] attributes instead of one list
-            return ' '.join('#[educe(%s)]' % p for p in parts)
-        return '#[educe(%s)]' % ', '.join(parts)
+    # ------------------------------------------------------------ type-level attributes
+    def bound_mode(self, t):
+        return (self.opts.get('bounds') or {}).get(t, 'auto')
+
+    def bound_param(self, t, mode=None, site=None):
+        b = mode or self.bound_mode(t)
+        site = site or 't/%s/bound' % t
+        if b == 'auto':
+            return self.sp('bound_auto_p', site) if site in self.overrides else ''
+        if b == 'autox':
+            # the automatic mode, spelled explicitly
+            return self.sp('bound_auto_p', site)
+        if b == 'disabled':
+            return self.sp('bound_disabled_p', site)
+        if b == 'all':
+            return self.sp('bound_all_p', site)
+        return self.sp('bound_custom_p', site, V=self.custom_bound_text(t))
+
+    def custom_bound_text(self, t):
+        return 'T: Copy'
 
     def type_trait_meta(self, t):
         o = self.opts
+        union = self.cfg['kind'] == 'union'
         if t == 'Debug':
             ps = []
             dn = o.get('dname', 'default')
-            if dn == 'off':
-                ps.append(pick(['name = false', 'name(false)', 'rename = false', 'name = ""'], self.idx, 'dn'))
-            elif dn == 'on':
-                ps.append(pick(['name = true', 'name(true)'], self.idx, 'dn'))
-            elif dn == 'custom':
-                ps.append(pick(['name = Renamed', 'name = "Renamed"', 'name(Renamed)', 'rename = Renamed', 'name("Renamed")'], self.idx, 'dn'))
             dnf = o.get('dnf', 'default')
+            bp = self.bound_param(t) if not union else ''
+            if dn == 'custom' and dnf == 'default' and not bp and not union:
+                return self.sp('name', 't/Debug/name', V='Renamed')
+            if dn == 'off':
+                ps.append(self.sp('name_off_p', 't/Debug/name'))
+            elif dn == 'on':
+                ps.append(self.sp('name_on_p', 't/Debug/name'))
+            elif dn == 'custom':
+                ps.append(self.sp('name_p', 't/Debug/name', V='Renamed'))
             if dnf in ('true', 'false'):
-                ps.append(pick(['named_field = %s' % dnf, 'named_field(%s)' % dnf], self.idx, 'dnf'))
-            if self.cfg['kind'] == 'union':
+                ps.append(self.sp('bool_p', 't/Debug/named_field', P='named_field', V=dnf))
+            ps.append(bp)
+            ps = self.order([p for p in ps if p], 't/Debug/order')
+            if union:
                 ps.insert(0, 'unsafe')
-            if ps == ['name = Renamed'] and pick([0, 1], self.idx, 'dsh') == 0 and self.cfg['kind'] != 'union':
-                return 'Debug = Renamed'
             return 'Debug(%s)' % ', '.join(ps) if ps else 'Debug'
-        if t in ('PartialEq', 'Hash') and self.cfg['kind'] == 'union':
+        if t in ('PartialEq', 'Hash') and union:
             return '%s(unsafe)' % t
         if t == 'Default':
             ps = []
             if o.get('newfn'):
-                ps.append(pick(['new', 'new = true', 'new(true)'], self.idx, 'new'))
+                ps.append(self.sp('new_p', 't/Default/new'))
             if o.get('dexpr'):
-                ps.append(pick(['expression = %s', 'expr = %s', 'expression(%s)', 'expr(%s)'], self.idx, 'dx') % self.type_default_expr())
-            return 'Default(%s)' % ', '.join(ps) if ps else 'Default'
+                ps.append(self.sp('expr_p', 't/Default/expr', V=self.type_default_expr()))
+            ps.append(self.bound_param(t))
+            return self.meta('Default', ps, 't/Default')
         if t == 'Into':
-            tn = {'A': 'TA', 'B': 'TB'}
-            return ', '.join('Into(%s)' % pick([tn[x], 'probes::%s' % tn[x]], self.idx, 'itn', x) for x in o['targets'])
-        return t
+            out = []
+            for x in o['targets']:
+                p = self.bound_param('Into:' + x)
+                out.append('Into(%s%s)' % (self.target_name(x), ', ' + p if p else ''))
+            return ', '.join(out)
+        if t in ('Deref', 'DerefMut'):
+            return t
+        return self.meta(t, [self.bound_param(t)], 't/' + t)
 
-    def field_attr(self, v, i, f):
-        """attribute string for field i (1-based) of variant v"""
+    def target_name(self, x):
+        tn = {'A': 'TA', 'B': 'TB'}[x]
+        if self.canonical:
+            return tn
+        return pick([tn, 'probes::%s' % tn], self.idx, 'itn', x)
+
+    def type_attr(self):
+        parts = [self.type_trait_meta(t) for t in self.order(self.traits, 't/order')]
+        return self.attrs(parts, 't/split')
+
+    def type_default_expr(self):
+        raise NotImplementedError
+
+    # ------------------------------------------------------------ variant-level attributes
+    def variant_attr(self, v, var):
+        metas = []
+        if 'Debug' in self.traits:
+            ps = []
+            dn = var.get('dname', 'default')
+            dnf = var.get('dnf', 'default')
+            if dn == 'custom' and dnf == 'default':
+                metas.append(self.sp('name', 'v/%d/Debug/name' % v, V='RenamedV%d' % v))
+            else:
+                if dn == 'off':
+                    ps.append(self.sp('name_off_p', 'v/%d/Debug/name' % v))
+                elif dn == 'custom':
+                    ps.append(self.sp('name_p', 'v/%d/Debug/name' % v, V='RenamedV%d' % v))
+                if dnf in ('true', 'false'):
+                    ps.append(self.sp('bool_p', 'v/%d/Debug/named_field' % v, P='named_field', V=dnf))
+                if ps:
+                    metas.append(self.meta('Debug', ps, 'v/%d/Debug' % v))
+        if var.get('dflt') and 'Default' in self.traits:
+            metas.append('Default')
+        return self.attrs(self.order(metas, 'v/%d/order' % v), 'v/%d/split' % v)
+
+    # ------------------------------------------------------------ field-level attributes
+    def default_value_text(self, v, i, f):
+        kind = f['dflt']
+        return {'int': '%d' % (10 + i), 'str': '"%d"' % (10 + i), 'bool': 'true', 'char': "'%d'" % i,
+                'float': '%d.0' % (10 + i), 'expr': 'probes::pexpr(%d)' % (10 + i)}[kind]
+
+    def method_path(self, t):
+        return {'PartialEq': 'probes::m_eq', 'Ord': 'probes::m_cmp', 'PartialOrd': 'probes::m_pcmp', 'Hash': 'probes::m_hash',
+                'Clone': 'probes::m_clone', 'Debug': 'probes::m_fmt', 'Into': 'probes::m_into'}[t]
+
+    def field_metas(self, v, i, f):
         metas = []
         o = self.opts
-        key = (self.idx, v, i)
-        if 'PartialEq' in self.traits and f['eq'] != 'own':
+        base = 'f/%d/%d' % (v, i)
+        if 'Debug' in self.traits:
+            dbg = f.get('dbg', 'own')
+            key = f.get('key', '')
+            if dbg == 'ignore' and not key:
+                metas.append(self.sp('ignore', base + '/Debug/ignore', T='Debug'))
+            elif dbg == 'own' and key:
+                metas.append(self.sp('key', base + '/Debug/key', V='k%d' % i))
+            elif dbg != 'own' or key:
+                ps = []
+                if dbg == 'ignore':
+                    ps.append(self.sp('ignore_p', base + '/Debug/ignore'))
+                elif dbg == 'method':
+                    ps.append(self.sp('method_p', base + '/Debug/method', V=self.method_path('Debug')))
+                if key:
+                    ps.append(self.sp('key_p', base + '/Debug/key', V='k%d' % i))
+                metas.append(self.meta('Debug', ps, base + '/Debug'))
+        if 'Clone' in self.traits and f.get('clone', 'own') == 'method':
+            metas.append('Clone(%s)' % self.sp('method_p', base + '/Clone/method', V=self.method_path('Clone')))
+        if 'PartialEq' in self.traits and f.get('eq', 'own') != 'own':
             via = o.get('eqvia', 'PartialEq')
+            if via not in self.traits:
+                via = 'PartialEq'
             if f['eq'] == 'ignore':
-                metas.append(ignore_spelling(via, key))
+                metas.append(self.sp('ignore', base + '/PartialEq/ignore', T=via))
             else:
-                metas.append('%s(%s)' % (via, method_spelling('probes::m_eq', key)))
+                metas.append('%s(%s)' % (via, self.sp('method_p', base + '/PartialEq/method', V=self.method_path('PartialEq'))))
         ordered = [t for t in ('Ord', 'PartialOrd') if t in self.traits]
         if ordered:
             via = o.get('ordvia', ordered[0])
             if via not in self.traits:
                 via = ordered[0]
-            ps = []
-            if f['ord'] == 'ignore':
-                ps.append(pick(['ignore', 'ignore = true', 'ignore(true)'], 'oi', key))
-            elif f['ord'] == 'method':
-                m = 'probes::m_cmp' if 'Ord' in self.traits else 'probes::m_pcmp'
-                ps.append(method_spelling(m, key))
-            if f['rank'] != NO_RANK:
-                ps.append(rank_spelling(int(f['rank']), key))
-            if ps:
-                if ps == ['ignore'] and pick([0, 1], 'osh', key) == 0:
-                    metas.append('%s = false' % via)
-                else:
-                    if pick([0, 1], 'oord', key) == 0:
-                        ps.reverse()
-                    metas.append('%s(%s)' % (via, ', '.join(ps)))
-        if 'Hash' in self.traits and f['hash'] != 'own':
-            if f['hash'] == 'ignore':
-                metas.append(ignore_spelling('Hash', key))
+            mt = 'Ord' if 'Ord' in self.traits else 'PartialOrd'
+            has_rank = f.get('rank', NO_RANK) != NO_RANK
+            if f.get('ord', 'own') == 'ignore' and not has_rank:
+                metas.append(self.sp('ignore', base + '/Ord/ignore', T=via))
             else:
-                metas.append('Hash(%s)' % method_spelling('probes::m_hash', key))
-        if 'Clone' in self.traits and f['clone'] == 'method':
-            metas.append('Clone(%s)' % method_spelling('probes::m_clone', key))
+                ps = []
+                if f.get('ord', 'own') == 'ignore':
+                    ps.append(self.sp('ignore_p', base + '/Ord/ignore'))
+                elif f.get('ord', 'own') == 'method':
+                    ps.append(self.sp('method_p', base + '/Ord/method', V=self.method_path(mt)))
+                if has_rank:
+                    ps.append(self.sp('rank_p', base + '/Ord/rank', V=int(f['rank'])))
+                if ps:
+                    metas.append(self.meta(via, ps, base + '/Ord'))
+        if 'Hash' in self.traits and f.get('hash', 'own') != 'own':
+            if f['hash'] == 'ignore':
+                metas.append(self.sp('ignore', base + '/Hash/ignore', T='Hash'))
+            else:
+                metas.append('Hash(%s)' % self.sp('method_p', base + '/Hash/method', V=self.method_path('Hash')))
+        if 'Default' in self.traits:
+            if f.get('dflt', 'none') != 'none':
+                metas.append(self.sp('expr', base + '/Default/expr', V=self.default_value_text(v, i, f)))
+            elif f.get('deref') and self.cfg['kind'] == 'union':
+                metas.append('Default')
         if 'Into' in self.traits:
             for m in f.get('into', []):
-                tn = {'A': 'TA', 'B': 'TB'}[m['t']]
-                # the target must be spelled as on the type (targets are matched by their token string)
-                tn = pick([tn, 'probes::%s' % tn], self.idx, 'itn', m['t'])
+                tn = self.target_name(m['t'])
                 if m['m']:
-                    metas.append('Into(%s, %s)' % (tn, method_spelling('probes::m_into', key + (m['t'],))))
+                    metas.append('Into(%s, %s)' % (tn, self.sp('method_p', base + '/Into:%s/method' % m['t'], V=self.method_path('Into'))))
                 else:
                     metas.append('Into(%s)' % tn)
-        if 'Deref' in self.traits and f.get('deref'):
+        if 'Deref' in self.traits and f.get('deref') and self.cfg['kind'] != 'union':
             metas.append('Deref')
         if 'DerefMut' in self.traits and f.get('dmut'):
             metas.append('DerefMut')
-        metas += self.extra_field_metas(v, i, f)
-        # companion noise: when Debug is educed only as a bystander, give it field attributes of its own,
-        # before or after the studied trait's attributes
-        noise = []
-        if 'Debug' in self.traits and self.prop != 'C06' and pick([0, 1, 2], 'noise', key) != 0:
-            noise = [pick(['Debug(ignore)', 'Debug = false', 'Debug(method(probes::m_any))'], 'noisek', key)]
-        if noise:
-            if pick([0, 1], 'noisepos', key) == 0:
-                metas = metas + noise
-            else:
-                metas = noise + metas
-        if not metas:
-            return ''
-        if len(metas) > 1 and pick([0, 1, 2], 'fsplit', key) != 0:
-            return ' '.join('#[educe(%s)]' % m for m in metas) + ' '
-        return '#[educe(%s)] ' % ', '.join(metas)
-
-    def extra_field_metas(self, v, i, f):
-        metas = []
-        key = (self.idx, v, i)
-        var = self.cfg['variants'][v - 1]
-        if 'Debug' in self.traits:
-            ps = []
-            if f.get('dbg', 'own') == 'ignore':
-                ps.append(pick(['ignore', 'ignore = true', 'ignore(true)'], 'di', key))
-            elif f.get('dbg', 'own') == 'method':
-                ps.append(method_spelling('probes::m_fmt', key))
-            if f.get('key', ''):
-                k = 'k%d' % i
-                ps.append(pick(['name = %s', 'name = "%s"', 'name(%s)', 'rename = %s', 'rename("%s")'], 'dk', key) % k)
-            if ps:
-                if ps == ['ignore'] and pick([0, 1], 'dsh', key) == 0:
-                    metas.append('Debug = false')
-                elif len(ps) == 1 and f.get('key', '') and f.get('dbg', 'own') == 'own' and pick([0, 1, 2], 'dsh2', key) == 0:
-                    metas.append(pick(['Debug = k%d', 'Debug = "k%d"'], 'dsh3', key) % i)
-                else:
-                    if pick([0, 1], 'dord', key) == 0:
-                        ps.reverse()
-                    metas.append('Debug(%s)' % ', '.join(ps))
         return metas
 
-    def variant_attr(self, v, var):
-        metas = []
-        key = (self.idx, v)
-        if 'Debug' in self.traits:
-            ps = []
-            dn = var.get('dname', 'default')
-            if dn == 'off':
-                ps.append(pick(['name = false', 'name(false)', 'rename = false', 'name = ""'], 'vdn', key))
-            elif dn == 'custom':
-                n = 'RenamedV%d' % v
-                ps.append(pick(['name = %s', 'name = "%s"', 'name(%s)', 'rename = %s', 'name("%s")'], 'vdn', key) % n)
-            dnf = var.get('dnf', 'default')
-            if dnf in ('true', 'false'):
-                ps.append(pick(['named_field = %s' % dnf, 'named_field(%s)' % dnf], 'vdnf', key))
-            if ps:
-                if len(ps) == 1 and dn == 'custom' and pick([0, 1, 2], 'vsh', key) == 0:
-                    metas.append('Debug = RenamedV%d' % v)
-                else:
-                    if pick([0, 1], 'vord', key) == 0:
-                        ps.reverse()
-                    metas.append('Debug(%s)' % ', '.join(ps))
-        if var.get('dflt') and 'Default' in self.traits:
-            metas.append('Default')
-        if not metas:
-            return ''
-        return '#[educe(%s)] ' % ', '.join(metas)
-
-    def extra_items(self):
-        """items rendered after the type (on the same line), e.g. a hand-written PartialOrd when only Ord is educed"""
-        if 'Ord' in self.traits and 'PartialOrd' not in self.traits:
-            return ('impl ::core::cmp::PartialOrd for %s { fn partial_cmp(&self, o: &Self) -> Option<::core::cmp::Ordering> '
-                    '{ Some(::core::cmp::Ord::cmp(self, o)) } }' % self.name)
-        if 'Copy' in self.traits:
-            return 'const _: fn() = || { fn is_copy<T: ::core::marker::Copy>() {} is_copy::<%s>(); };' % self.name
-        return ''
-
-    FIELD_TYPES = {'A': 'TA', 'B': 'TB', 'P': 'P', 'ref': "&'static P", 'bool': 'bool', 'u64': 'u64', 'unit': '()', 'char': 'char', 'str': "&'static str",
-                   'nz': '::core::num::NonZeroU8', 'opt': 'Option<u8>', 'nested': 'probes::Inner'}
-    with_finger = True
+    def field_attr(self, v, i, f):
+        base = 'f/%d/%d' % (v, i)
+        metas = self.field_metas(v, i, f)
+        # bystander noise: when Debug is educed only as a companion (see C08), give it field attributes of its
+        # own, before or after the studied trait's attributes
+        if 'Debug' in self.traits and self.prop in ('C08',) and not self.canonical:
+            key = (self.idx, v, i)
+            metas = [m for m in metas if not m.startswith('Debug')]
+            if pick([0, 1, 2], 'noise', key) != 0:
+                noise = pick(['Debug(ignore)', 'Debug = false', 'Debug(method(probes::m_any))'], 'noisek', key)
+                metas = metas + [noise] if pick([0, 1], 'noisepos', key) == 0 else [noise] + metas
+            return self.attrs(metas, base + '/split')
+        return self.attrs(self.order(metas, base + '/order'), base + '/split')
 
     def field_type(self, v, i, f):
         ty = f.get('ty', 'P')
         if ty in ('A', 'B'):
             # spelled exactly like the Into target on the type: educe matches a field's declared type
             # against the target by token string
-            tn = {'A': 'TA', 'B': 'TB'}[ty]
-            return pick([tn, 'probes::%s' % tn], self.idx, 'itn', ty)
+            return self.target_name(ty)
         return self.FIELD_TYPES[ty]
 
     # ------------------------------------------------------------ item
-    def fields_src(self, v, var, with_vis=False):
+    def fields_src(self, v, var):
         fs = var['fields']
         if var['style'] == 'unit':
             return ''
@@ -261,39 +349,42 @@ class TypeRender:
         r = self.opts.get('repr', 'none')
         return '' if r == 'none' else '#[repr(%s)] ' % r
 
-    def item(self):
+    def generics_decl(self):
+        return ''
+
+    def where_decl(self):
+        return ''
+
+    def item(self, derive=True):
+        self.sites = []
         c = self.cfg
-        head = '#[derive(Educe)] %s %s' % (self.type_attr(), self.repr_attr())
+        head = '%s%s%s' % ('#[derive(Educe)] ' if derive else '', self.type_attr(), self.repr_attr())
+        g = self.generics_decl()
+        w = self.where_decl()
         if c['kind'] == 'struct':
             var = c['variants'][0]
             body = self.fields_src(1, var)
-            semi = ';' if var['style'] in ('unit', 'tuple') else ''
-            return '%sstruct %s%s%s' % (head, self.name, body, semi)
+            if var['style'] == 'named':
+                return '%sstruct %s%s%s%s' % (head, self.name, g, (' ' + w if w else ''), body)
+            return '%sstruct %s%s%s%s;' % (head, self.name, g, body, (' ' + w if w else ''))
         if c['kind'] == 'union':
             var = c['variants'][0]
-            return '%sunion %s%s' % (head, self.name, self.fields_src(1, var))
+            return '%sunion %s%s%s%s' % (head, self.name, g, (' ' + w if w else ''), self.fields_src(1, var))
         vs = []
         for v, var in enumerate(c['variants'], 1):
             d = '' if var.get('disc', NO_DISC) == NO_DISC else ' = %s' % var['disc']
             vs.append('%sV%d%s%s' % (self.variant_attr(v, var), v, self.fields_src(v, var), d))
-        return '%senum %s { %s }' % (head, self.name, ', '.join(vs))
+        return '%senum %s%s%s { %s }' % (head, self.name, g, (' ' + w if w else ''), ', '.join(vs))
 
-    def addrs_impl(self):
-        """impl Addrs: address of every field's storage (referent for reference fields), per variant"""
-        c = self.cfg
-        arms = []
-        for v, var in enumerate(c['variants'], 1):
-            path = self.name if c['kind'] != 'enum' else '%s::V%d' % (self.name, v)
-            n = len(var['fields'])
-            names = ['g%d' % i for i in range(1, n + 1)]
-            if var['style'] == 'named':
-                pat = '%s { %s }' % (path, ', '.join('%s: %s' % (self.fname(v, i), g) for i, g in enumerate(names, 1)))
-            elif var['style'] == 'tuple':
-                pat = '%s(%s)' % (path, ', '.join(names))
-            else:
-                pat = path
-            arms.append('%s => vec![%s],' % (pat, ', '.join('addr_of_p(%s)' % g for g in names)))
-        return 'impl Addrs for %s { fn addrs(&self) -> Vec<usize> { match self { %s } } }' % (self.name, ' '.join(arms))
+    def extra_items(self):
+        """items rendered after the type (on the same line)"""
+        out = []
+        if 'Ord' in self.traits and 'PartialOrd' not in self.traits:
+            out.append('impl ::core::cmp::PartialOrd for %s { fn partial_cmp(&self, o: &Self) -> Option<::core::cmp::Ordering> '
+                       '{ Some(::core::cmp::Ord::cmp(self, o)) } }' % self.name)
+        if 'Copy' in self.traits:
+            out.append('const _: fn() = || { fn is_copy<T: ::core::marker::Copy>() {} is_copy::<%s>(); };' % self.name)
+        return ' '.join(out)
 
     # ------------------------------------------------------------ Case impl
     def ctor(self, v, var, side='s', vals='x'):
@@ -319,21 +410,31 @@ class TypeRender:
             return '&*Box::leak(Box::new(P::new(%s, %d, %s)))' % (side, i, val)
         return 'probes::mk_%s(%s)' % (ty, val)
 
-    def finger_arm(self, v, var):
+    def var_pattern(self, v, var, names):
         c = self.cfg
         path = self.name if c['kind'] != 'enum' else '%s::V%d' % (self.name, v)
-        n = len(var['fields'])
-        if var['style'] == 'unit':
-            return '%s => format!("[%d,[]]")' % (path, v)
-        names = ['g%d' % i for i in range(1, n + 1)]
         if var['style'] == 'named':
-            pat = '%s { %s }' % (path, ', '.join('%s: %s' % (self.fname(v, i), g) for i, g in enumerate(names, 1)))
-        else:
-            pat = '%s(%s)' % (path, ', '.join(names))
+            return '%s { %s }' % (path, ', '.join('%s: %s' % (self.fname(v, i), g) for i, g in enumerate(names, 1)))
+        if var['style'] == 'tuple':
+            return '%s(%s)' % (path, ', '.join(names))
+        return path
+
+    def finger_arm(self, v, var):
+        n = len(var['fields'])
+        names = ['g%d' % i for i in range(1, n + 1)]
+        pat = self.var_pattern(v, var, names)
         if n == 0:
             return '%s => format!("[%d,[]]")' % (pat, v)
         fmt = ','.join('{}' for _ in names)
         return '%s => format!("[%d,[%s]]", %s)' % (pat, v, fmt, ', '.join('%s.finger()' % g for g in names))
+
+    def addrs_impl(self):
+        """impl Addrs: address of every field's storage (referent for reference fields), per variant"""
+        arms = []
+        for v, var in enumerate(self.cfg['variants'], 1):
+            names = ['g%d' % i for i in range(1, len(var['fields']) + 1)]
+            arms.append('%s => vec![%s],' % (self.var_pattern(v, var, names), ', '.join('addr_of_p(%s)' % g for g in names)))
+        return 'impl Addrs for %s { fn addrs(&self) -> Vec<usize> { match self { %s } } }' % (self.name, ' '.join(arms))
 
     def case_impl(self):
         c = self.cfg
